@@ -12,6 +12,9 @@ import subprocess
 HERE = os.path.dirname(os.path.abspath(__file__))
 ROOT = os.path.dirname(HERE)
 REPO = os.environ.get('VERIF_REPO', '/repo')
+# scratch mode: VERIF_REPO names a *full* copy of the repository (Cargo.toml present) -> harness runs there
+SCRATCH = REPO != '/repo' and os.path.exists(os.path.join(REPO, 'Cargo.toml'))
+NOHARNESS = REPO != '/repo' and not SCRATCH
 HARNESS = json.load(open(os.path.join(ROOT, 'contracts', 'harness.json'))) \
     if os.path.exists(os.path.join(ROOT, 'contracts', 'harness.json')) else {}
 
@@ -25,12 +28,24 @@ def harness_bin():
     crate = os.path.join(ROOT, 'replay')
     if not os.path.exists(os.path.join(crate, 'Cargo.toml')):
         return None, 'no replay crate'
-    env = dict(os.environ, CARGO_NET_OFFLINE='true', CARGO_TARGET_DIR=os.path.join(ROOT, '.build'))
+    target = os.path.join(ROOT, '.build')
+    if SCRATCH:
+        # development only (self-test, seeded defects): a full scratch copy of the repository with its
+        # own copy of the replay crate and its own target directory, so that /repo is never touched
+        import shutil
+        c2 = REPO.rstrip('/') + '.replay'
+        target = REPO.rstrip('/') + '.build'
+        if not os.path.exists(c2):
+            shutil.copytree(crate, c2)
+            t = open(os.path.join(c2, 'Cargo.toml')).read().replace('path = "/repo"', 'path = "%s"' % REPO)
+            open(os.path.join(c2, 'Cargo.toml'), 'w').write(t)
+        crate = c2
+    env = dict(os.environ, CARGO_NET_OFFLINE='true', CARGO_TARGET_DIR=target)
     p = subprocess.run(['cargo', 'build', '--release', '--offline', '-q'], cwd=crate, env=env,
                        capture_output=True, text=True)
     if p.returncode != 0:
         return None, 'replay crate does not build against the current tree: ' + p.stderr[-1500:]
-    return os.path.join(ROOT, '.build', 'release', 'pv-replay'), None
+    return os.path.join(target, 'release', 'pv-replay'), None
 
 
 def run_harness(args, timeout=600):
@@ -68,7 +83,7 @@ def make_replay(prop, ob, entries, work, tier, seed, known_match):
           'rerun': './check %s --replay %s' % (prop, path),
           'failing_input': None}
     h = harness_for(ob)
-    if h is not None and os.environ.get('VERIF_REPO', '/repo') == '/repo':
+    if h is not None and not NOHARNESS:
         args = ['search', h['harness'], '--tier', tier, '--seed', str(seed)]
         if h.get('only'):
             args += ['--only', h['only']]
@@ -97,7 +112,7 @@ def make_replay(prop, ob, entries, work, tier, seed, known_match):
 def bounded_fallback(prop, undecided, work, tier, seed, open_known):
     """the verifier could not decide: a concrete failing input from the bounded harness is still a
     violation (it is real by construction)"""
-    if os.environ.get('VERIF_REPO', '/repo') != '/repo':
+    if NOHARNESS:
         return None
     for spec in HARNESS.get('bounded', {}).get(prop, []):
         out, err = run_harness(['search', spec['harness'], '--tier', tier, '--seed', str(seed)])
@@ -120,7 +135,7 @@ def bounded_leaves(prop, work, tier, seed, open_known):
     and, as a cross-check of the specification text, of the proved functions, against an independent
     executable model.  Labelled bounded; never added to obligations/discharged."""
     specs = HARNESS.get('bounded', {}).get(prop, [])
-    if not specs or os.environ.get('VERIF_REPO', '/repo') != '/repo':
+    if not specs or NOHARNESS:
         return {'report': [{'note': 'bounded harness not run (VERIF_REPO override)'}]} if specs else {}
     res = {'report': [], 'violations': [], 'known_lines': [], 'evaluations': 0, 'distinct_nontrivial': 0, 'rule': ''}
     for spec in specs:
